@@ -18,7 +18,7 @@ import (
 	"verif/internal/univ"
 )
 
-const caughtMark = "\x01caught\x01"
+const caughtMark = "caught#c03#marker"
 
 // outcome of one call: "values", "empty", "error", "budget", "guard".
 func totalOutcome(s *spec, in any, args []arg) (string, string) {
